@@ -38,6 +38,16 @@ func replayFile(repo, verif, path string) error {
 		return err
 	}
 	fmt.Printf("obligation: %v\nfunction:   %v\nstatus:     %v\n", rec["obligation"], rec["function"], rec["status"])
+	if _, ok := rec["bounded_case"]; ok {
+		out, failed := replayBounded(repo, rec)
+		fmt.Println(lastLines(out, 8))
+		if failed {
+			fmt.Println("replay: the real code diverges from the reference model on this operation sequence")
+			os.Exit(1)
+		}
+		fmt.Println("replay: not reproduced on the current tree")
+		return nil
+	}
 	if t, ok := rec["go_test"].(string); ok && t != "" {
 		out, failed := runGoReplay(repo, verif, rec)
 		fmt.Println(out)
